@@ -171,6 +171,8 @@ type Prop struct {
 	// CaseCPU is the per-case CPU budget in seconds (default 30).
 	CaseCPU    float64
 	Exhaustive func(tier string) bool
+	// ExhaustiveSubspaces names, per tier, the finite sub-spaces this check enumerates completely (the rest is sampled).
+	ExhaustiveSubspaces func(tier string) []string
 	// FreshProcessPerCase: every case runs in its own child (package-level state must start clean).
 	CasesPerProcess int
 	// CrashInconclusive: a dying or hanging child makes the run inconclusive instead of violated
